@@ -132,7 +132,7 @@ def g3_jobs(harness, runs, workers=12, max_len=600):
             env = dict(VERIF_PROP=ctx['prop'], VERIF_OUT=ctx['outdir'], VERIF_WORKER='%s%d' % (harness, w))
             jobs.append(Job('g3-%s-%d' % (harness, w),
                             [exe, '-runs=%d' % n, '-seed=%d' % (seed * 100 + w + 1), '-max_len=%d' % max_len,
-                             '-use_value_profile=1', '-reload=1', '-print_final_stats=1', '-timeout=60',
+                             '-use_value_profile=1', '-reload=1', '-print_final_stats=1', '-timeout=1200',
                              '-rss_limit_mb=3000', '-artifact_prefix=%s/art-%s%d-' % (ctx['outdir'], harness, w), corpus],
                             ctx['outdir'], cur=os.path.join(ctx['outdir'], 'cur-g3-%s%d.case' % (harness, w)),
                             env=env, harness=harness, exe=exe, prop=ctx['prop']))
